@@ -233,7 +233,7 @@ fn main() {
     let mut rep = Report::new(
         "crashmc",
         "C09",
-        "for every configuration (packaging {OneFile,TwoFiles,NoConcat} x destination {absent, holding an older complete container} x compression {none,zstd}, plus a container with a stored cluster above the 8 KiB writer buffer and an extra content pack file): a fault-free recording run gives the write history (N units: bytes written + metadata operations on the destination directory, through an LD_PRELOAD shim); then a fault at unit n for n in the quick grid (every metadata unit, every 16th byte, 6 bytes around every write-call boundary) or every n in [0,N] (thorough) x {process death, EIO, ENOSPC, one transient EIO (a short write, one failing call, then everything works again), one short write with no error at all}; plus process death right after every metadata operation the shim sees, and every rename (raw syscalls, reached through strace's syscall tampering) failing with EIO / ENOENT or killing the process; after each run the destination is absent / byte-identical to the previous file / a complete new container that opens, dumps to the model with no pack missing and verifies; non-trivial = a fault that fired (n < N)",
+        "for every configuration (packaging {OneFile,TwoFiles,NoConcat} x destination {absent, holding an older complete container} x compression {none,zstd}, plus a container with a stored cluster above the 8 KiB writer buffer and an extra content pack file): a fault-free recording run gives the write history (N units: bytes written + metadata operations on the destination directory, through an LD_PRELOAD shim); then a fault at unit n for n in the quick grid (every metadata unit, every 16th byte, 6 bytes around every write-call boundary) or every n in [0,N] (thorough) x {process death, EIO, ENOSPC, one transient EIO (a short write, one failing call, then everything works again), one short write with no error at all}; plus process death right after every metadata operation the shim sees, and every rename (raw syscalls, reached through strace's syscall tampering) failing with EIO / ENOENT or killing the process; plus creations one of whose sources (the first or the last compressed content) cannot be read; after each run the destination is absent / byte-identical to the previous file / a complete new container that opens, dumps to the model with no pack missing and verifies; non-trivial = a fault that fired (n < N)",
     );
     if !shim_path().exists() {
         rep.machinery_errors.push(format!("{} not built", shim_path().display()));
@@ -495,6 +495,43 @@ fn main() {
             }
             if rep.samples.len() < 4 && fired && n > 100 {
                 rep.sample(case);
+            }
+        }
+    }
+    // ---- an input that cannot be read (an I/O error on the reading side, no output fault):
+    // the creation must fail and leave the destination as it was
+    if replay.is_none() {
+        for packaging in ["OneFile", "TwoFiles", "NoConcat"] {
+            for shape_name in ["multi-badfirst", "multi-badlast"] {
+                for preexisting in [false, true] {
+                    let cfg = Config { shape: shape_name, old_shape: "small", comp: Comp::Zstd(5), packaging, preexisting };
+                    let cfg_json = json!({"packaging": cfg.packaging, "preexisting": cfg.preexisting, "comp": cfg.comp.name(), "shape": cfg.shape});
+                    let d = base.path().join(format!("bad_{packaging}_{shape_name}_{preexisting}")).join("dest");
+                    let pre = match prepare(&cfg, &d) {
+                        Ok(p) => p,
+                        Err(e) => {
+                            rep.machinery_errors.push(format!("prepare {cfg:?}: {e}"));
+                            continue;
+                        }
+                    };
+                    let (code, err) = run_child(&cfg, &d, -1, "kill", None);
+                    let case = json!({"engine":"crashmc","config":cfg_json,"n":-1,"mode":"unreadable-source"});
+                    let id = case.to_string();
+                    if code == 0 {
+                        rep.case(Some(&id), "unreadable source: creator ok");
+                        rep.violation(
+                            &format!("C09 the creator reports success although one of its sources could not be read [{packaging}]"),
+                            &format!("{shape_name}: exit 0 {err}"),
+                            case,
+                        );
+                        continue;
+                    }
+                    let v = inspect(&cfg, &d, &pre, code, "eio");
+                    rep.case(Some(&id), &format!("unreadable source: {} [exit {code}]", v.outcome));
+                    if let Some((k, w)) = v.violation {
+                        rep.violation(&format!("C09 {k} [{packaging}, unreadable source]"), &format!("{shape_name}, exit {code}: {w}"), case);
+                    }
+                }
             }
         }
     }
